@@ -245,6 +245,8 @@ func generate() {
 	// statement trees: bodies that thread a local variable through assignments
 	out.WriteString("/-- statement tree of a Go function body made of simple statements, `if`/`else` and `return`:\n`seq s k` is the assignment / declaration `s` (source text) followed by `k`; a statement after an `if` is\ncopied into both branches. -/\ninductive SExp where\n  | seq (s : String) (k : SExp)\n  | ite (c : String) (t e : SExp)\n  | ret (e : String)\n  | fall\n  | other\n  deriving DecidableEq, Repr\n\n")
 	funcSExp("stmCloserThan", "types/addr-maybe-id.go", "AddrMaybeId", "CloserThan")
+	funcSExp("stmIssue", "transactions/key-issuer.go", "varintIdIssuer", "Issue")
+	funcSExp("stmNextTransactionID", "server.go", "Server", "nextTransactionID")
 	c14Facts()  // C14: sender/Close event lists, control-flow graphs of the traversal owners (owners.go)
 	lockFacts() // C01 (deadlock part): mutex acquisitions, calls and held sets of every function (locks.go)
 }
@@ -352,7 +354,7 @@ func sexpOfStmts(l []ast.Stmt) string {
 		return "SExp.fall"
 	}
 	switch x := l[0].(type) {
-	case *ast.AssignStmt, *ast.DeclStmt:
+	case *ast.AssignStmt, *ast.DeclStmt, *ast.ExprStmt, *ast.IncDecStmt:
 		return "SExp.seq " + leanStr(simpleStmtText(x)) + " (" + sexpOfStmts(l[1:]) + ")"
 	case *ast.ReturnStmt:
 		if len(x.Results) == 1 {
